@@ -332,7 +332,11 @@ func TestVxReplay(t *testing.T) {
 		if r != nil && fmt.Sprint(r) != "vx.Stop" {
 			p = fmt.Sprint(r)
 		}
-		fmt.Printf("VXREPLAY failed=%%q panic=%%q desync=%%q\n", vx.Failed, p, vx.Desync)
+		var reached []string
+		for k := range vx.Reached {
+			reached = append(reached, k)
+		}
+		fmt.Printf("VXREPLAY failed=%%q panic=%%q desync=%%q reached=%%q\n", vx.Failed, p, vx.Desync, reached)
 	}()
 	%s()
 }
@@ -353,6 +357,23 @@ func TestVxReplay(t *testing.T) {
 	out, _ := cmd.CombinedOutput()
 	txt := string(out)
 	confirmed := false
+	if v.Kind == "pass" {
+		// agreement replay of a passing path: the native run must complete without a failed assertion, panic or
+		// desynchronised decision, and reach every marker the symbolic path reached
+		for _, line := range strings.Split(txt, "\n") {
+			if !strings.HasPrefix(line, "VXREPLAY ") {
+				continue
+			}
+			ok := strings.Contains(line, "failed=[]") && strings.Contains(line, `panic=""`) && strings.Contains(line, "desync=[]")
+			for _, m := range v.Tags {
+				if !strings.Contains(line, strconv.Quote(m)) {
+					ok = false
+				}
+			}
+			return ok, txt, nil
+		}
+		return false, txt, nil
+	}
 	for _, line := range strings.Split(txt, "\n") {
 		if !strings.HasPrefix(line, "VXREPLAY ") {
 			continue
